@@ -48,7 +48,7 @@ def spec_view(op, line):
 class Fam(diffrun.Family):
     """runs the harness with a key log, removes whatever a killed run left in /dev/shm"""
 
-    def __init__(self, exe, api_only=False, env=None, timeout=300):
+    def __init__(self, exe, api_only=False, env=None, timeout=120):
         super().__init__("ipc", exe, spec_view=spec_view, env=env, timeout=timeout)
         self.api_only = api_only
         self.leftovers = 0
@@ -197,17 +197,27 @@ class Runner:
                 joined += c + ["reset"]
             return diffrun.judge(self.fam, joined) if len(g) > 1 else diffrun.judge(self.fam, g[0])
 
-        with ThreadPoolExecutor(parallel) as ex:
-            verdicts = list(ex.map(judge_group, groups))
-        for g, v in zip(groups, verdicts):
-            for c in g:
-                self.chk.count("\n".join(c), nontrivial=len(c) > 1)
-                self.chk.sample(c[:30], cap=4)
-            if v is None:
-                self.chk.cov["traces_validated_against_impl"] += len(g)
-            else:
+        # in chunks, so that a tree that fails everywhere (a mutant) stops after a few concrete replays
+        for i in range(0, len(groups), parallel * 2):
+            if self.enough():
+                break
+            chunk = groups[i:i + parallel * 2]
+            with ThreadPoolExecutor(parallel) as ex:
+                verdicts = list(ex.map(judge_group, chunk))
+            for g, v in zip(chunk, verdicts):
                 for c in g:
-                    self.one(c, count=False)
+                    self.chk.count("\n".join(c), nontrivial=len(c) > 1)
+                    self.chk.sample(c[:30], cap=4)
+                if v is None:
+                    self.chk.cov["traces_validated_against_impl"] += len(g)
+                else:
+                    for c in g:
+                        if self.enough():
+                            break
+                        self.one(c, count=False)
+
+    def enough(self):
+        return self.unsigned >= 3
 
     def search(self, cases):
         """DESIGN §2.4: the proof or the correspondence no longer speaks about this code: judge the
